@@ -5,3 +5,6 @@ package simdjson
 
 // verifEvent is a no-op unless the package is built with the "verif" tag.
 func verifEvent(ev int, a, b uint64) {}
+
+// verifChunk is a no-op unless the package is built with the "verif" tag.
+func verifChunk(b []byte) {}
